@@ -3,6 +3,9 @@ package main
 import (
 	"encoding/json"
 	"fmt"
+	"go/ast"
+	"go/parser"
+	"go/token"
 	"go/types"
 	"math/rand"
 	"os"
@@ -393,6 +396,7 @@ func evalCase(moq *runner.Moq, j job, prop string) ([]ostatic.Finding, ostatic.F
 	findings, facts, chk, res, verdict := analyseInvocation(moq, inv)
 	if verdict == "ok" && prop == "C20" && len(c.Ifaces) >= 2 && chk != nil && res.Exit == 0 {
 		findings = append(findings, soloCompare(moq, j, chk)...)
+		findings = append(findings, shrinkingOut(moq, j)...)
 	}
 	return findings, facts, res, verdict
 }
@@ -424,6 +428,47 @@ func soloCompare(moq *runner.Moq, j job, joint *ostatic.Checked) []ostatic.Findi
 		}
 	}
 	return out
+}
+
+// shrinkingOut writes the joint request to an -out file and then only its first interface to the same file: the
+// file must then contain exactly that one mock (one mock per argument of the LAST run, whatever was there before).
+func shrinkingOut(moq *runner.Moq, j job) []ostatic.Finding {
+	c := j.c
+	if c.Tree.Seed%3 != 0 { // a third of the trees: each history costs two more runs
+		return nil
+	}
+	out := filepath.Join(filepath.Dir(j.dir), fmt.Sprintf("shrink_%d_%p.go", c.Tree.Seed, c))
+	defer os.Remove(out)
+	cwd := cwdOf(j.dir, c)
+	if r := moq.Run(cwd, append([]string{"-out", out}, c.Args()...), runner.Opts{}); r.Exit != 0 {
+		return nil
+	}
+	solo := *c
+	solo.Ifaces, solo.MockNames = c.Ifaces[:1], c.MockNames[:1]
+	if r := moq.Run(cwd, append([]string{"-out", out}, solo.Args()...), runner.Opts{}); r.Exit != 0 {
+		return nil
+	}
+	b, err := os.ReadFile(out)
+	if err != nil {
+		return nil
+	}
+	fset := token.NewFileSet()
+	f, perr := parser.ParseFile(fset, out, b, parser.SkipObjectResolution)
+	if perr != nil {
+		return []ostatic.Finding{{Prop: "C20", Msg: "after generating [" + strings.Join(c.Args(), " ") + "] and then only its first interface into the same -out file, the file does not parse: " + perr.Error()}}
+	}
+	var types []string
+	for _, d := range f.Decls {
+		if gd, ok := d.(*ast.GenDecl); ok && gd.Tok == token.TYPE {
+			for _, sp := range gd.Specs {
+				types = append(types, sp.(*ast.TypeSpec).Name.Name)
+			}
+		}
+	}
+	if len(types) != 1 || types[0] != c.MockName(0) {
+		return []ostatic.Finding{{Prop: "C20", Msg: fmt.Sprintf("after a joint run and then a run for the first interface only into the same -out file, the file declares %v, want exactly [%s]", types, c.MockName(0))}}
+	}
+	return nil
 }
 
 // ---- known findings ----
